@@ -234,6 +234,21 @@ pub fn apply(m: &MutSpec, phase: &str, bytes: &[u8], _n: usize, rng: &mut ChaCha
     out
 }
 
+fn schema_len(v: &V, path: &[usize]) -> Option<usize> {
+    let mut cur = v;
+    for i in path {
+        cur = match cur {
+            V::Arr(vs) | V::Tup(vs) | V::Vec(vs, _) => vs.get(*i)?,
+            V::Opt(_, Some(x)) if *i == 0 => x,
+            _ => return None,
+        };
+    }
+    match cur {
+        V::Vec(vs, _) => Some(vs.len()),
+        _ => None,
+    }
+}
+
 fn pick3<X: Clone>(v: &[X], rng: &mut ChaCha8Rng) -> Vec<X> {
     // first, last, one random
     let mut out = vec![];
@@ -295,6 +310,20 @@ pub fn catalogue(phase: &str, bytes: &[u8], rng: &mut ChaCha8Rng, huge_prefixes:
     });
     for p in pick3(&bytevecs, rng) {
         out.push(MutSpec::At { path: p, op: LeafOp::XorBytes(vec![1 << rng.random_range(0..8)]) });
+    }
+    if bytevecs.len() > 1 {
+        // every byte vector of the message emptied / cut to one byte at once
+        out.push(MutSpec::Multi(bytevecs.iter().map(|p| (p.clone(), LeafOp::VecClear)).collect()));
+        let cut: Vec<(Vec<usize>, LeafOp)> = bytevecs
+            .iter()
+            .filter_map(|p| match schema_len(&v, p) {
+                Some(l) if l > 1 => Some((p.clone(), LeafOp::VecResize(1 - l as i64))),
+                _ => None,
+            })
+            .collect();
+        if !cut.is_empty() {
+            out.push(MutSpec::Multi(cut));
+        }
     }
     let u8s = schema::paths(&v, &t, &|v, t| matches!((v, t), (V::U8(_), T::U8)));
     if !u8s.is_empty() && arrs.is_empty() && bytevecs.is_empty() {
